@@ -1,8 +1,9 @@
 package main
 
 // Frozen reason table of C10 (one line of justification per site; keys are
-// function-name suffix, kind and a prefix of the operand as the checker
-// renders it — never a line number). An entry that matches nothing is
+// function-name suffix (of the site's function or of the function a transparent
+// helper is inlined into), kind and a prefix of the operand in the canonical
+// rendering — local names replaced by their types ‹T› — never a line number). An entry that matches nothing is
 // reported as stale in the evidence, it does not fail the check.
 
 func init() {
@@ -27,33 +28,33 @@ func init() {
 		{"(*msg.Box).startClock", "panic", "\"GC GCExpire", "configuration check at first use (caller contract), independent of received data"},
 		// --- rbc
 		{"(*rbc.Receiver).Receive", "panic", "\"received ack from myself", "the transport-authenticated source is never this node's own id (C16: a node does not connect to itself; attribution only to registered peers)"},
-		{"(*rbc.Receiver).Receive", "bounds", "m.Ack()#0[:8]", sha},
-		{"(*rbc.Receiver).Receive", "bounds", "&reception.digest[:8]", sha},
-		{"(*rbc.Receiver).registerMsg", "bounds", "&ack.digest[:8]", sha},
+		{"(*rbc.Receiver).Receive", "bounds", "‹rbc.Message›.Ack()#0[:8]", sha},
+		{"(*rbc.Receiver).Receive", "bounds", "&‹rbc.msgReception›.digest[:8]", sha},
+		{"(*rbc.Receiver).registerMsg", "bounds", "&‹rbc.msgReception›.digest[:8]", sha},
 		// --- threshold
-		{"(*threshold.Scheme).prepareSigning$2", "assert", "m.(*threshold.rbcMsg)", "only *rbcMsg values are handed to the RBC instance (both construction sites build &rbcMsg, C02.V1) and the instance hands back what it was given, never nil (C03.G2)"},
-		{"(*threshold.Scheme).runDKG$1$2", "assert", "m.(*threshold.rbcMsg)", "only *rbcMsg values are handed to the RBC instance (C02.V1) and the instance hands back what it was given, never nil (C03.G2)"},
-		{"(*threshold.Scheme).runDKG$1$1", "bounds", "[]byte(digest)[:8]", sha},
-		{"(threshold.rbcEncoding).Payload", "bounds", "r[1:]", "called only after rbcEncoding.Ack() on the same bytes returned no error, and Ack's first guard rejects empty data (site Ack/r[0], discharged by that guard)"},
+		{"(*threshold.Scheme).prepareSigning$2", "assert", "‹interface{}›.(*threshold.rbcMsg)", "only *rbcMsg values are handed to the RBC instance (both construction sites build &rbcMsg, C02.V1) and the instance hands back what it was given, never nil (C03.G2)"},
+		{"(*threshold.Scheme).runDKG$1$2", "assert", "‹interface{}›.(*threshold.rbcMsg)", "only *rbcMsg values are handed to the RBC instance (C02.V1) and the instance hands back what it was given, never nil (C03.G2)"},
+		{"(*threshold.Scheme).runDKG$1$1", "bounds", "[]byte(‹string›)[:8]", sha},
+		{"(threshold.rbcEncoding).Payload", "bounds", "‹threshold.rbcEncoding›[1:]", "called only after rbcEncoding.Ack() on the same bytes returned no error, and Ack's first guard rejects empty data (site Ack/r[0], discharged by that guard)"},
 		// --- net
-		{"net.extractTLSBinding", "assert", "conn.(*tls.Conn)", "connections come from a listener created by tls.Listen (net.Listen, API contract) or from tls.Dial: every conn is a *tls.Conn"},
+		{"net.extractTLSBinding", "assert", "‹net.Conn›.(*tls.Conn)", "connections come from a listener created by tls.Listen (net.Listen, API contract) or from tls.Dial: every conn is a *tls.Conn"},
 		{"net.extractTLSBinding", "panic", "\"failed extracting TLS topic", "ExportKeyingMaterial cannot fail on an established TLS 1.3 connection with renegotiation disabled (library contract)"},
 		{"net.handleConn", "block", "inMsgs", "unbuffered hand-off to the application's reader on the per-connection goroutine: it can only delay this peer's own traffic (consumer contract)"},
 		// --- bls
 		{"(*mpc/bls.SSS).Gen", "bounds", "make(slice)[", local},
 		{"(*mpc/bls.TBLS).ThresholdPK", "panic", "", misuse},
-		{"(*mpc/bls.TBLS).shareDistribution", "bounds", "shares[", shares},
+		{"(*mpc/bls.TBLS).shareDistribution", "bounds", "localGen(", shares},
 		{"(*mpc/bls.Verifier).AggregateSignatures", "panic", "", misuse},
-		{"mpc/bls.localAggregatePublicKeys", "bounds", "pks[", points},
-		{"mpc/bls.localAggregateSignatures", "bounds", "signatures[", "len(signatures) == len(signers) is enforced by the caller's guard and one signature is consumed per evaluation point"},
+		{"mpc/bls.localAggregatePublicKeys", "bounds", "φ‹[]*math.G2›[", points},
+		{"mpc/bls.localAggregateSignatures", "bounds", "make(slice)[", "len(signatures) == len(signers) is enforced by the caller's guard and one signature is consumed per evaluation point"},
 		// --- ps
 		{"(*mpc/ps.SSS).Gen", "bounds", "make(slice)[", local},
-		{"(*mpc/ps.TPS).combineShares", "bounds", "&share.ys[", psLen},
+		{"(*mpc/ps.TPS).combineShares", "bounds", "&‹ps.SK›.ys[", psLen},
 		{"(*mpc/ps.TPS).shareDistribution", "bounds", "", shares},
-		{"(mpc/ps.PKs).YPoints", "bounds", "&pks[i].Y[", psLen},
+		{"(mpc/ps.PKs).YPoints", "bounds", "&‹ps.PKs›[", psLen},
 		{"mpc/ps.Setup", "bounds", "psuedoRandomG1s(", ctrConst},
-		{"mpc/ps.SignBlindSignature", "bounds", "pp.gs[(len(pp.gs) - 1)]", "Setup allocates MessageLength+1 ≥ 1 generators (MessageLength is non-negative local configuration)"},
-		{"mpc/ps.localAggregateECPoints", "bounds", "points[", points},
+		{"mpc/ps.", "bounds", "‹*ps.PP›.gs[(len(‹*ps.PP›.gs) - 1)]", "Setup allocates MessageLength+1 ≥ 1 generators (MessageLength is non-negative local configuration)"},
+		{"mpc/ps.localAggregateECPoints", "bounds", "‹[]*math.G2›[", points},
 		{"mpc/ps.marshalShare", "bounds", "", local},
 		// --- adapters
 		{"party).OnMsg", "block", "p.in", "buffered (1000) and drained by the session loop; once the session has ended its handlers are removed (C12.O1), so no further traffic is dispatched to it"},
